@@ -1,12 +1,9 @@
 #![no_main]
-//! C04: Content::decode (+ re-encode) and decode_text_string on raw bytes.
+//! libFuzzer front end of the 'content' target; the decoding of the bytes into worker calls lives in lv::props::fuzzdec
+//! (shared with the confirmation step of the thorough tier). Any panic (overflow checks are on), abort, stack
+//! overflow, timeout or out-of-memory is a libFuzzer artifact, which the check re-runs in the isolated worker.
 use libfuzzer_sys::fuzz_target;
-use lv::props::entries::{dispatch, E_CONTENT, E_TEXTSTRING};
 
 fuzz_target!(|data: &[u8]| {
-    if data.len() > 65536 {
-        return;
-    }
-    let _ = dispatch(E_CONTENT, data);
-    let _ = dispatch(E_TEXTSTRING, data);
+    lv::props::fuzzdec::fuzz_one("content", data);
 });
